@@ -95,10 +95,10 @@ fn gen_predx(rng: &mut Rng, depth: u32, cols: &[J]) -> J {
         return match rng.below(10) {
             0..=4 => { let op = *rng.pick(&["gt", "ge", "lt", "le", "eq"]); let lit = json!(["val", gen_lit_for(rng, &cols[i])]); if rng.chance(1, 3) { json!([op, lit, ["col", i]]) } else { json!([op, ["col", i], lit]) } }
             5 | 6 => { let j = rng.below(cols.len() as u64) as usize; let op = *rng.pick(&["gt", "ge", "lt", "le", "eq"]); json!([op, ["col", i], ["col", j]]) }
-            7 => { let n = 1 + rng.below(3); json!(["in", ["col", i], (0..n).map(|_| gen_lit_for(rng, &cols[i])).collect::<Vec<_>>()]) }
             // a test compared with a boolean literal, in either order: (a > 5) = FALSE holds where the test does not
             7 if rng.chance(1, 3) => { let op = *rng.pick(&["gt", "le", "eq"]); let inner = if rng.chance(1, 3) { let n = 1 + rng.below(3); json!(["in", ["col", i], (0..n).map(|_| gen_lit_for(rng, &cols[i])).collect::<Vec<_>>()]) } else { json!([op, ["col", i], ["val", gen_lit_for(rng, &cols[i])]]) };
                                        json!(["eqbool", inner, rng.chance(1, 2), rng.chance(1, 2)]) }
+            7 => { let n = 1 + rng.below(3); json!(["in", ["col", i], (0..n).map(|_| gen_lit_for(rng, &cols[i])).collect::<Vec<_>>()]) }
             8 if rng.chance(1, 2) => json!(["plusgt", ["col", i], ["val", gen_lit_for(rng, &cols[i])]]),   // (col + 1) > lit : unsupported shape
             // a function of a numeric column (one-to-one or not) tested against a list or a bound: whatever the filter narrows, it may not
             // narrow the column as if the function were not there
